@@ -270,7 +270,15 @@ def m_fcntl(I, fn, n, args, st):
         s.res[t] = ("open", cmd != fs(0), "dup", args[0])
         return [(failed(st, fn, n), fs(-1)), (s, fs(t))]
     if cmd == fs(1):
-        # F_GETFD is the "is this a descriptor" probe: failing (EBADF) is an answer, not an error
+        # F_GETFD is the "is this a descriptor" probe: failing (EBADF) is an answer, not an error.  For a number obtained from
+        # fileno() it settles whether the descriptor behind the FILE is still open
+        probed = [a for a in args[0] if isinstance(a, tuple) and a[0] == "ext" and st.res.get(a, ("?",))[0] == "maybe-closed"]
+        if len(probed) == 1 and len(args[0]) == 1:
+            bad = with_errno(st, fs(I.abs_int(9)))
+            bad.res[probed[0]] = ("closed",)
+            good = st.copy()
+            good.res[probed[0]] = ("open",)
+            return [(bad, fs(-1)), (good, I.nonneg())]
         return [(st, fs(-1)), (st, I.nonneg())]
     return [(failed(st, fn, n), fs(-1)), (st, I.nonneg())]
 
